@@ -21,10 +21,27 @@ def _cleanup():
 atexit.register(_cleanup)
 
 
+def _prune_stale(base, prefix, max_age_s=6 * 3600):
+    """scratch directories of runs that were killed before their atexit cleanup (nothing a registered command needs lives there)"""
+    now = time.time()
+    try:
+        for n in os.listdir(base):
+            if n.startswith(prefix):
+                p = os.path.join(base, n)
+                try:
+                    if os.path.isdir(p) and now - os.path.getmtime(p) > max_age_s:
+                        shutil.rmtree(p, ignore_errors=True)
+                except OSError:
+                    pass
+    except OSError:
+        pass
+
+
 def scratch(prefix="masa-verif-"):
     base = os.environ.get("VERIF_SCRATCH")
     if not base:
         base = "/dev/shm" if os.path.isdir("/dev/shm") and os.access("/dev/shm", os.W_OK) else tempfile.gettempdir()
+    _prune_stale(base, prefix)
     d = tempfile.mkdtemp(prefix=prefix, dir=base)
     _scratch_dirs.append(d)
     return d
